@@ -60,6 +60,39 @@ def check(facts, rep, tier, cfg):
     for v in sub.violations:
         if "consumer-zero-returns" in v["key"]:
             rep.bad("C06.R1", "consumer-closes-with-reset", v["where"], v["msg"])
+    # every drop notification closes its flow: the close call in the consumer depends on the notified id only (not on the slot's state)
+    kc = 0
+    for b in crate.bodies:
+        if not any(callee(t) and callee(t)["name"] in ("recv", "poll_recv") and "UnboundedReceiver::<u32>" in callee(t)["path"] for _, t in b.calls()):
+            continue
+        closes = [bi for bi, t in b.calls() if callee(t) and callee(t)["name"] == "close_flow"]
+        if not closes:
+            continue
+        trc = Tracer(facts, b)
+        for cbi in closes:
+            kc += 1
+            wc = "%s (%s)" % (loc_str(b.term(cbi)["loc"]), b.path)
+            extra = []
+            for gb in range(len(b.blocks)):
+                if b.term(gb)["k"] != "SwitchInt" or gb == cbi or not b.dominates(gb, cbi):
+                    continue
+                g = guard_at(facts, b, trc, gb)
+                if g is None:
+                    continue
+                # a guard matters when one of its edges avoids the close call
+                if all(cbi in b.reachable_from(t_, cut={gb}) for t_, _ in g.edges):
+                    continue
+                names = set(x[6] for x in walk(g.pred) if x.kind == "call")
+                if names & {"read", "write", "get", "get_mut", "contains_key", "is_closed", "is_some_and", "is_some", "is_none", "lock"} and \
+                        any(x.kind == "field" and x[2] == "flows" for x in walk(g.pred)):
+                    extra.append(gb)
+            if extra:
+                rep.bad("C06.R1", "consumer-closes-every-dropped-flow", "%s (%s)" % (loc_str(b.term(extra[0])["loc"]), b.path),
+                        "whether a dropped stream's flow is closed depends on the state of its slot (guard at %s): for some states (e.g. after the "
+                        "peer's Finish) the notification is discarded, the peer is never told and the flow id is never released" % loc_str(b.term(extra[0])["loc"]))
+            else:
+                rep.ok("C06.R1", "consumer-closes-every-dropped-flow", wc, "close_flow(id, false) depends on the id only")
+    rep.floor("C06.R1", "close calls in the dropped-flows consumer", kc, 1)
     # ---- R2 / R4 from the reaction table
     rep.rule("C06.R2", "close = remove + closed flag + wake + inbound sender dropped (reaction-table cells)")
     rep.rule("C06.R4", "Reset never answered with Reset; unknown flows answered with Reset (reaction-table cells)")
